@@ -2057,7 +2057,9 @@ class sptensor:
                 assert False, "Multiplicand is wrong size"
 
         # Multiply each value by the appropriate elements of the appropriate vector
-        newvals = self.vals.copy()
+        # (as real numbers: integer, boolean or single precision values must not
+        # wrap around or saturate in the products and their sums)
+        newvals = as_float_if_needed(self.vals.copy())
         subs = self.subs.copy()
         if subs.size == 0:  # No nonzeros in tensor
             newsubs = np.array([], dtype=int)
